@@ -25,6 +25,7 @@ def check(run, tier):
         run.mc("MC_Twin", "MC_Twin_mixed_d4", timeout=3000)
     r = rng("C03")
     progs = targeted.fault_programs("evo") + targeted.fault_programs("fluent")
+    progs += targeted.round2_programs("evo") + targeted.round2_programs("fluent")
     progs += [p for p in evo.targeted_programs() if "oversized" in p["id"] or "canonical" in p["id"]]
     n = 200 if q else 4000
     for i in range(n):
